@@ -238,6 +238,7 @@ type jobResult struct {
 	solverTime time.Duration
 	solverErrs []string
 	wall       time.Duration
+	cross      []sym.CrossQuery
 }
 
 // pool is a work-stealing task pool: a task is a harness plus a forced trail prefix.
@@ -335,6 +336,7 @@ func runJob(prog *sym.Program, j job, solver string, timeoutMs int, p *pool) (r 
 	if j.meta.MaxPaths > 0 {
 		m.Lim.MaxPaths = j.meta.MaxPaths
 	}
+	m.CrossEvery = crossEvery
 	pk := prog.Pkgs[j.meta.Pkg]
 	if pk == nil {
 		r.inconc = []string{"package not loaded: " + j.meta.Pkg}
@@ -360,6 +362,7 @@ func runJob(prog *sym.Program, j job, solver string, timeoutMs int, p *pool) (r 
 	r.stats = m.Stats
 	r.violations = m.Violations
 	r.samples = m.Samples
+	r.cross = m.CrossQueries
 	if m.Solver != nil {
 		r.solverQ, r.solverSat, r.solverUns, r.solverUnk = m.Solver.Queries, m.Solver.NSat, m.Solver.NUnsat, m.Solver.NUnknown
 		r.solverTime = m.Solver.SolveTime
@@ -375,6 +378,61 @@ func runJob(prog *sym.Program, j job, solver string, timeoutMs int, p *pool) (r 
 }
 
 func ensureFuncExists(fn *ssa.Function) bool { return fn != nil }
+
+var crossEvery = 0
+
+// crossCheck re-decides sampled assertion queries with the two other solvers; a sat/unsat disagreement is fatal.
+func crossCheck(qs []sym.CrossQuery, limit int) (checked int, secondaryUnknown int, disagreements []string) {
+	if len(qs) > limit {
+		step := len(qs) / limit
+		var pick []sym.CrossQuery
+		for i := 0; i < len(qs) && len(pick) < limit; i += step {
+			pick = append(pick, qs[i])
+		}
+		qs = pick
+	}
+	work := filepath.Join(outDir, "work", fmt.Sprintf("cross-%d", os.Getpid()))
+	os.MkdirAll(work, 0o755)
+	defer os.RemoveAll(work)
+	type res struct {
+		i       int
+		solver  string
+		verdict string
+	}
+	ch := make(chan res)
+	sem := make(chan struct{}, 8)
+	n := 0
+	for i, q := range qs {
+		f := filepath.Join(work, fmt.Sprintf("q%d.smt2", i))
+		os.WriteFile(f, []byte(q.Script), 0o644)
+		for _, sv := range [][]string{{"z3-new", "-T:60", f}, {"cvc5", "--tlimit=60000", f}} {
+			n++
+			go func(i int, sv []string) {
+				sem <- struct{}{}
+				defer func() { <-sem }()
+				out, _ := exec.Command(sv[0], sv[1:]...).CombinedOutput()
+				v := "unknown"
+				for _, l := range strings.Split(string(out), "\n") {
+					l = strings.TrimSpace(l)
+					if l == "sat" || l == "unsat" {
+						v = l
+					}
+				}
+				ch <- res{i, sv[0], v}
+			}(i, sv)
+		}
+	}
+	for k := 0; k < n; k++ {
+		r := <-ch
+		checked++
+		if r.verdict == "unknown" {
+			secondaryUnknown++
+		} else if r.verdict != qs[r.i].Primary {
+			disagreements = append(disagreements, fmt.Sprintf("%s says %s, z3 said %s on an assertion query of %s", r.solver, r.verdict, qs[r.i].Primary, qs[r.i].Label))
+		}
+	}
+	return
+}
 
 var _ = packages.NeedName
 var _ = ast.NewIdent
@@ -817,6 +875,9 @@ func cmdCheck(prop, tier string, only *regexp.Regexp) int {
 		timeoutMs, _ = strconv.Atoi(t)
 	}
 	solver := envOr("VERIF_SOLVER", "z3")
+	if tier == "thorough" && os.Getenv("VERIF_NO_CROSS") == "" {
+		crossEvery = 150
+	}
 	results := runJobs(ld.prog, jobs, workers, solver, timeoutMs, verbose)
 
 	findings := loadFindings()
@@ -988,6 +1049,18 @@ func cmdCheck(prop, tier string, only *regexp.Regexp) int {
 			}
 		}
 	}
+	crossChecked, crossUnknown := 0, 0
+	if crossEvery > 0 {
+		var all []sym.CrossQuery
+		for _, r := range results {
+			all = append(all, r.cross...)
+		}
+		var dis []string
+		crossChecked, crossUnknown, dis = crossCheck(all, 40)
+		for _, d := range dis {
+			inconclusive = append(inconclusive, "SOLVER-DISAGREEMENT: "+d)
+		}
+	}
 	// engine-vs-native differential: sampled complete paths (a model of each path condition) are replayed
 	// against the real build; the engine found every assertion to hold on them, so the native run must too
 	if os.Getenv("VERIF_NO_DIFF") == "" {
@@ -1096,6 +1169,8 @@ func cmdCheck(prop, tier string, only *regexp.Regexp) int {
 			"assertion_unknown":                          agg.unkA,
 			"solver_time_s":                              round2(agg.solverTime.Seconds()),
 			"per_query_timeout_ms":                       timeoutMs,
+			"cross_solver_rechecks_z3new_cvc5":           crossChecked,
+			"cross_solver_secondary_unknown":             crossUnknown,
 			"inconclusive":                               uniq(inconclusive),
 			"known_findings_reported":                    knownLines,
 			"dropped_harness_files":                      ld.dropped,
